@@ -8,7 +8,9 @@ For each seed: git apply in /tmp/seedwt (a detached worktree of /repo HEAD), run
 import json, os, shutil, subprocess, sys, glob
 from concurrent.futures import ThreadPoolExecutor
 VERIF = os.path.dirname(os.path.dirname(os.path.abspath(__file__)))
-args = [a for a in sys.argv[1:] if not a.startswith("--")]
+_argv = sys.argv[1:]
+_json_out = _argv[_argv.index("--json") + 1] if "--json" in _argv else None
+args = [a for a in _argv if not a.startswith("--") and a != _json_out]
 allprops = "--all-props" in sys.argv
 seeds = args or sorted(os.listdir(os.path.join(VERIF, "seeded")))
 PROPS = [f"C{i:02d}" for i in range(1, 21)]
@@ -36,10 +38,15 @@ def run(seed):
     finally:
         shutil.rmtree(wt, ignore_errors=True)
 
+allres = {}
 with ThreadPoolExecutor(8) as ex:
     for seed, res in ex.map(run, seeds):
+        allres[seed] = res
         own = seed[:3]
         o = res.get(own)
         status = "CAUGHT" if isinstance(o, tuple) and o[0] == 1 else ("ERROR" if isinstance(o, tuple) and o[0] == 2 else "MISSED")
         extra = {p: v for p, v in res.items() if p != own and isinstance(v, tuple) and v[0] != 0}
         print(f"{seed}: {status} {o} " + (f"others={extra}" if extra else ""))
+
+if _json_out:
+    json.dump(allres, open(_json_out, "w"), indent=1)
